@@ -22,3 +22,65 @@ class Generate:
 
     def raises(self, data_variants):
         return {"*": True}
+
+
+@contract(MG + "._convert", props=["C13", "C17"], verify=False)
+class Convert:
+    """a model (plain dict of field types) with exactly the keys of the object; TypeError on a non-string key"""
+    sorts = {"data": "dict", "result": "dict"}
+
+    def raises(self, data):
+        return {"TypeError": True}
+
+    def ensures(self, data, result):
+        return {"is_model": ty_is(result, dict), "same_keys": forall(data, lambda k: k in result) and forall(result, lambda k: k in data)}
+
+
+@contract(MG + "._detect_type", props=["C13", "C09"])
+class DetectType:
+    """C13: an object becomes Dict[str, T] exactly when it is empty, or conversion is disabled for this field, or all of its keys
+    match one of the dict-key regexes; every other object becomes a model.  C09: a string is classified as the FIRST registered
+    pseudo-type whose parser accepts it, else it is a one-element literal."""
+    sorts = {"convert_dict": "bool", "dict_keys_regex": "list", "dict_keys_regex[]": "obj:Pattern", "types": "list", "types[]": "class",
+             "str_types_registry": "obj:StringSerializableRegistry", "str_types_registry[]": "class", "types": "list"}
+
+    def requires(self, value, convert_dict):
+        return {"json_value": is_json(value),
+                "registry_wf": registry_wf(self.str_types_registry)}
+
+    def raises(self, value, convert_dict):
+        return {"TypeError": True}
+
+    def ensures(self, value, convert_dict, result):
+        regs = self.dict_keys_regex
+        all_match = exists(regs, lambda r: forall(as_dict(value), lambda k: matches(r, sval(k))))
+        as_mapping = isinstance(value, dict) and (dict_len(value) == 0 or not convert_dict or all_match)
+        reg_types = as_list(attr_of(self.str_types_registry, "types"))
+        return {
+            "dict_iff_option@C13": ty_is(result, DDict) == as_mapping,
+            "model_otherwise@C13": ty_is(result, dict) == (isinstance(value, dict) and not as_mapping),
+            "first_accepting_type@C09": implies(ty_is(value, str),
+                                                exists(range(seq_len(reg_types)), lambda j: result is at(reg_types, j) and accepts(at(reg_types, j), sval(value))
+                                                       and forall(range(j), lambda k: not accepts(at(reg_types, k), sval(value))))
+                                                or (forall(range(seq_len(reg_types)), lambda k: not accepts(at(reg_types, k), sval(value)))
+                                                    and ty_is(result, StringLiteral))),
+            "scalars": implies(ty_is(value, int), result is int) and implies(ty_is(value, float), result is float) and implies(ty_is(value, bool), result is bool),
+            "null": implies(is_none(value), result is Null),
+            "list": implies(ty_is(value, list), ty_is(result, DList)),
+            "list_items_are_not_direct_values@C13": implies(ty_is(value, list) and seq_len(value) > 0,
+                                                            seq_len(local("types")) == seq_len(value) and
+                                                            forall(range(seq_len(value)), lambda j: at(local("types"), j) is old(self._detect_type(at(value, j), True)))),
+            "single_item_list@C13": implies(ty_is(value, list) and seq_len(value) == 1, attr_of(result, "_type") is old(self._detect_type(at(value, 0), True))),
+        }
+
+
+@loop(MG + "._detect_type", 1)
+def detect_regex_loop(self, value, convert_dict, pre_convert_dict, _it, _seq):
+    return {"unchanged_until_match": convert_dict == pre_convert_dict,
+            "no_match_before": forall(range(_it), lambda j: not forall(as_dict(value), lambda k: matches(_seq[j], sval(k))))}
+
+
+@loop(MG + "._detect_type", 2)
+def detect_registry_loop(self, value, pre_value, _it, _seq):
+    return {"value_kept": value is pre_value,
+            "none_accepted_before": forall(range(_it), lambda j: not accepts(_seq[j], sval(pre_value)))}
